@@ -100,6 +100,8 @@ pub struct Profile {
     pub remove_weight: u32,
     /// max units per inserted string
     pub max_str: usize,
+    /// shared types may be embedded into text
+    pub embed_nested: bool,
 }
 
 impl Profile {
@@ -117,6 +119,7 @@ impl Profile {
             unique_only: false,
             remove_weight: 3,
             max_str: 4,
+            embed_nested: true,
         }
     }
     pub fn sequences_unique() -> Profile {
@@ -133,6 +136,7 @@ impl Profile {
             unique_only: true,
             remove_weight: 4,
             max_str: 3,
+            embed_nested: false,
         }
     }
 }
@@ -227,7 +231,7 @@ fn embed_val(p: &Profile) -> BoxedStrategy<Val> {
         other => Some(other),
     });
     let mut v: Vec<(u32, BoxedStrategy<Val>)> = vec![(3, Just(Val::Uniq).boxed()), (2, anyv.prop_map(Val::Any).boxed())];
-    if p.nested {
+    if p.nested && p.embed_nested {
         let n = prop_oneof![
             str_spec(p).prop_map(Nest::Text),
             (0u8..3).prop_map(Nest::Array),
